@@ -329,6 +329,10 @@ fn g_unquote() -> BS<M> {
         }),
         (0i64..100, "[a-z]{1,4}").prop_map(|(i, s)| M::Unquote(format!("({}i32, {:?})", i, s), MV::List(vec![MV::int(i as i128)], Box::new(MV::Str(s))), true)),
         Just(M::Unquote("Value::symbol(\"from-value\")".into(), MV::sym("from-value"), true)),
+        // expressions that bring their own delimiters: a tuple (the pair conversion), a block, an array reference, a call
+        (0i64..100, "[a-z]{1,4}").prop_map(|(i, s)| M::Unquote(format!("({}i32, {:?})", i, s), MV::List(vec![MV::int(i as i128)], Box::new(MV::Str(s))), false)),
+        (0u64..100).prop_map(|i| M::Unquote(format!("{{ let z = {}u32; z + 1 }}", i), MV::U(i + 1), false)),
+        (0u64..100).prop_map(|i| M::Unquote(format!("({}u8, ({}u8, \"t\"))", i, i), MV::List(vec![MV::U(i), MV::U(i)], Box::new(MV::Str("t".into()))), false)),
         // plain identifiers bound in the generated program
         Just(M::Unquote("var_int".into(), MV::U(42), false)),
         Just(M::Unquote("var_str".into(), MV::Str("bound".into()), false)),
